@@ -153,6 +153,11 @@ def toArrayFrom : Nat → List Nat → List Nat
 /-- bitmap_store.rs:276 `to_array_store` (before `from_vec_unchecked`) -/
 def toArray (b : BStore) : List Nat := toArrayFrom 0 b.bits
 
+/-- bitmap_store.rs:280-289 `to_array_store` *with* its closing `ArrayStore::from_vec_unchecked(vec)` (`none` = the
+    debug validation panics).  `Lemmas/MirrorLemmas.lean`: `= some b.toArray` for every `BStore.Inv` store, so the
+    callers (`ensureCorrectStore`, `remove_smallest/biggest`) may use the bare `toArray`. (fidelity audit) -/
+def toArrayOp (dbg : Bool) (b : BStore) : Option (List Nat) := Arr.fromVecUnchecked dbg b.toArray
+
 /-- bitmap_store.rs:313 `rank` -/
 def rank (b : BStore) (i : Nat) : Nat :=
   let k := wkey i
